@@ -3,9 +3,9 @@ GO_PKGNAME = "records"
 HARNESS = ["records/c07_test.go"]
 GO_TEST = "TestVerifC07"
 RUN_MODULE = "Run_C07"
-COQ_TARGETS = ["Corr/Run_C07.vo", "Proofs/ProvidersProofs.vo"]
-N = {"quick": 600, "thorough": 5000}
-RULE = ("random histories (5-85 operations + a final restart and a query of every key) of AddProvider / GetProviders / "
+COQ_TARGETS = ["Corr/Run_C07.vo", "Proofs/ProvidersProofs.vo", "Proofs/ProvidersCloseProofs.vo"]
+N = {"quick": 750, "thorough": 6250}
+RULE = ("four cases out of five: random histories (5-85 operations + a final restart and a query of every key) of AddProvider / GetProviders / "
         "time.Sleep / restart / Close on the real ProviderManager in a synctest bubble, 1-12 keys (some are byte-prefixes "
         "of others) over a cache of 1-4 entries, 1-6 providers (one is the local peer), validity from a few ns to 48 h, "
         "sweep interval disabled / V/3 / V / 2V+3 / random, 60% of the sleeps aimed at an expiry instant -1/0/+1 ns, "
@@ -13,7 +13,19 @@ RULE = ("random histories (5-85 operations + a final restart and a query of ever
         "acknowledged write; a case is non-trivial when it reaches at least one of the branches cache-hit / "
         "miss-after-evict-or-restart / expired-in-cache / expired-on-load / sweep-deleted / load-deleted / "
         "restart-with-rows / closed-op / add-unserved / garbage / multi; distinct = distinct (branch set, length class, "
-        "cache size, key-count class) signatures")
+        "cache size, key-count class) signatures. "
+        "Every fifth case (index % 5 == 4) is a CONCURRENT run for the Close fence: 1-5 client goroutines (AddProvider / "
+        "GetProviders), pm.Close() and the real gcLoop on a gated datastore (every Put/Query/Delete/Get/Has/Batch/Commit parks "
+        "until the driver releases it), driven one action at a time (start client i / start Close / release the parked call "
+        "of a client or of the sweep / let the ticker fire) with a snapshot (who is parked in which call, who returned "
+        "ok/ErrClosed, has Close returned) after the bubble became quiet; the first twelve concurrent cases are fixed "
+        "schedules always run (client parked in Put at Close; parked in Query; client queued on mu behind another at "
+        "Close; three queued; cached Get queued; Close during a sweep's Query; during a sweep's Delete; tick buffered when "
+        "the context is cancelled; load deleting expired rows at Close; sweep and client both parked at Close; calls after "
+        "Close), the others pick every action at random among the possible ones (setup: random additions, pauses that "
+        "expire records, queries that fill the cache; validity 100 ms / 800 ms / 1 h; sweep off or every second); "
+        "distinct signatures of concurrent cases = (what was parked or queued when Close was called, who won the mutex "
+        "hand-off, calls during/after Close, tick while sweeping, client count)")
 TRUSTED = [
     "testing/synctest virtual time (time.Now, time.Since, time.Sleep, time.Ticker) stands for the wall clock",
     "go-datastore MapDatastore + sync.MutexWrap: Put/Delete/Query semantics, the path-boundary prefix filter of NaiveQueryApply "
@@ -22,10 +34,16 @@ TRUSTED = [
     "base32 datastore paths are injective on the non-empty keys and peer ids of a case (the harness maps rows back to ids and "
     "fails on an unknown path); binary.Varint decoding of the stored time",
     "pstoremem peerstore returns the queried id in PeerInfo",
+    "concurrent cases: quiescence is read off the goroutine states of the bubble (runtime.Stack: every other goroutine durably "
+    "blocked or in sync.Mutex.Lock), because testing/synctest does not treat a mutex wait as durable; datastore calls are "
+    "attributed to a client by goroutine id, every other goroutine counts as the sweep",
 ]
 ASSUMPTIONS = [
-    "operations are sequential (the model is atomic per operation); the documented race of the background sweep with a "
-    "concurrent re-add of an expired record is outside the model",
+    "the content theorems (what is served, durability, sweep) are about sequential histories (the model Providers.v is atomic "
+    "per operation); the documented race of the background sweep with a concurrent re-add of an expired record is outside it. "
+    "The Close clause is ALSO proved on the interleaving model ProvidersClose.v (every schedule of any number of client calls, "
+    "the sweep goroutine, the ticker and one Close call); there a datastore call is one step that returns, which datastore "
+    "calls an operation makes is an input of the model, and a second concurrent Close call is not modelled",
     "provider keys are non-empty (handleAddProvider rejects empty keys, Provide rejects undefined keys): with an empty key "
     "mkProvKey degenerates to the whole providers prefix",
     "ProvideValidity >= 0; MapDatastore never fails; the GetProviders context is never cancelled",
@@ -39,7 +57,9 @@ def classify(desc, code):
 
 
 TECHNIQUE = ("Coq proof (refinement invariant by induction over operation histories, for every cache capacity) on a Gallina "
-             "model of ProviderManager, differential correspondence with the real manager under synctest virtual time")
+             "model of ProviderManager; Coq proof (one invariant by induction over schedules) on a small-step interleaving model "
+             "of the lock discipline of AddProvider/GetProviders/gcLoop/Close; differential correspondence with the real manager "
+             "under synctest virtual time, sequentially and concurrently on a gated datastore")
 LEVEL_TEXT = ("Theorems in coq/Props/C07.v hold for every history of add / query / clock-advance / sweep / restart / close "
               "operations of any length over any keys and providers, every cache capacity, every validity and any "
               "undecodable rows present at start: GetProviders returns, as a duplicate-free set, exactly the providers whose "
@@ -49,8 +69,21 @@ LEVEL_TEXT = ("Theorems in coq/Props/C07.v hold for every history of add / query
               "provider records with an address and a key of 1..80 bytes. The model is compared with the real "
               "ProviderManager on generated histories on every run, and the property is evaluated independently of the "
               "model on the recorded trace (query results against the specification, datastore rows against the "
-              "specification, no datastore call after Close).")
+              "specification, no datastore call after Close). Close fence under concurrency (section 7 of Props/C07.v, model "
+              "ProvidersClose.v: client calls lock mu / read stopped / make their datastore calls / unlock, the sweep goroutine "
+              "touches the datastore without mu and tests ctx.Err() between rows, Close = cancel, wait for the sweep goroutine, "
+              "lock mu, set stopped, unlock, return): for EVERY schedule, any number of client calls, any datastore calls per "
+              "operation and per sweep, any number of ticks: no datastore call is made at a step after the step at which Close "
+              "returned, and when Close has returned no client is inside its datastore section and the sweep goroutine has "
+              "exited; every call made after Close returned reports ErrClosed without entering its datastore section; the "
+              "thread Close waits for is always enabled (no deadlock between Close, the sweep and the clients), every run "
+              "that cannot be extended has Close returned, every schedule takes at most fuel(init) steps, and scheduling "
+              "the thread Close waits for makes Close return within fuel(state) steps. The real manager is run under "
+              "generated schedules on a gated datastore: the recorded snapshots must be a run of that model (mutex hand-off "
+              "and select choices are read off the observation, the model only takes steps enabled in it) and must satisfy the "
+              "clause by themselves (nothing parked in or arriving at the datastore once Close has returned, calls made after "
+              "the return report closed, the run ends with Close and every call returned).")
 LEVEL_NOTE = ("Proof is about the Gallina model; the tie to the Go code is the correspondence run (differential testing, "
-              "bounded by the generator). Sequential model: the documented GC/re-add race is not modelled. Trusted: Coq "
+              "bounded by the generator). Content clauses on the sequential model: the documented GC/re-add race is not modelled; the Close fence on the interleaving model. Trusted: Coq "
               "kernel, vm_compute, the harness, synctest virtual time, MapDatastore/simplelru semantics, base32 path "
               "injectivity.")
